@@ -99,3 +99,16 @@ Qed.
 
 Lemma dtype_empty_wf : dtype_wf (0, []).
 Proof. exact I. Qed.
+
+(* The comparison of pure dependency-type values is Attr.set_compare (the model of C19) on
+   every state reachable by set/add/clone operations. *)
+Lemma inv_abits s v : Inv s -> abits (vars s v) = amap_bits (map_of s (vars s v)).
+Proof.
+  intros H. apply N.bits_inj. intros k.
+  rewrite (inv_bits s H v k), testbit_amap_bits. unfold content. reflexivity.
+Qed.
+
+Theorem set_compare_is_dtype_compare s v w : Inv s ->
+  set_compare s (vars s v) (vars s w) =
+  dtype_compare (mask (vars s v), map_of s (vars s v)) (mask (vars s w), map_of s (vars s w)).
+Proof. intros H. apply set_compare_dtype; apply inv_abits; auto. Qed.
